@@ -55,10 +55,21 @@ for t in ATYPS:
       replace=['__ymd_add_w', '__yd_add_w', '__ywd_add_w', '__daisy_add_w', '__daisy_to_ldn', '__daisy_to_mdn', '__ldn_to_daisy', '__mdn_to_daisy']
       + UNR('__jdn_to_daisy', '__daisy_to_jdn', '__ymcw_add_w', '__bizda_add_w'), solvers=SV, sweep={'in_n': '(int)(RND % 4000) - 2000'},
       timeout=1500 if t == 'DT_YWD' else 600, tier='thorough' if t == 'DT_YWD' else 'quick', **DN_IN)
-G('da.dt_dadd', 'date-core', 'dt_dadd', ARITH, ins=[(U, 'in_typ'), ('uint32_t', 'in_u'), (U, 'in_dt'), ('int', 'in_n')],
-  setup='struct dt_d_s d = {DT_DUNK}; d.typ = (dt_dtyp_t)in_typ; d.u = in_u; struct dt_ddur_s dur = {DT_DURUNK}; dur.durtyp = (dt_durtyp_t)in_dt; dur.dv = in_n;',
-  call='dt_dadd(d, dur)', ret='struct dt_d_s', replace=['dt_dadd_d', 'dt_dadd_w', 'dt_dadd_m', 'dt_dadd_y'] + UNR('dt_dadd_b'), solvers=SV, timeout=1800, tier='thorough',
-  sweep={'in_typ': 'RND % 12', 'in_dt': '6 + 2 * (RND % 2)', 'in_n': '(int)(RND % 4000) - 2000'})
+# dt_dadd: the duration dispatcher, one group per (duration unit, calendar) case of its contract
+DADD_CASES = [('D', 'DT_DURD', t) for t in ('DT_YMD', 'DT_YD', 'DT_YWD', 'DT_DAISY', 'DT_LDN', 'DT_MDN')] + \
+             [('W', 'DT_DURWK', t) for t in ('DT_YMD', 'DT_YD', 'DT_YWD', 'DT_DAISY', 'DT_LDN', 'DT_MDN')] + \
+             [('MO', 'DT_DURMO', t) for t in ('DT_YMD', 'DT_YMCW')] + [('QU', 'DT_DURQU', t) for t in ('DT_YMD', 'DT_YMCW')] + \
+             [('YR', 'DT_DURYR', t) for t in ('DT_YMD', 'DT_YMCW', 'DT_YD', 'DT_YWD')]
+DADD_CALLEE = {'D': 'dt_dadd_d', 'W': 'dt_dadd_w', 'MO': 'dt_dadd_m', 'QU': 'dt_dadd_m', 'YR': 'dt_dadd_y'}
+# the civil-calendar day/week cases re-derive V_d and the day number of the result from the callee's postcondition: 200..900 s each
+SLOW = lambda nm, t: nm in ('D', 'W') and t in ('DT_YMD', 'DT_YD', 'DT_YWD')
+for nm, dt, t in DADD_CASES:
+    cal = DADD_CALLEE[nm]
+    G('da.dt_dadd.%s.%s' % (nm, t[3:]), 'date-core', 'dt_dadd', (ARITH if nm in ('D', 'W') else ['C04']), ins=[(U, 'in_typ'), ('uint32_t', 'in_u'), (U, 'in_dt'), ('int', 'in_n')], fix={'in_typ': t, 'in_dt': dt},
+      setup='struct dt_d_s d = {DT_DUNK}; d.typ = (dt_dtyp_t)in_typ; d.u = in_u; struct dt_ddur_s dur = {DT_DURUNK}; dur.durtyp = (dt_durtyp_t)in_dt; dur.dv = in_n;',
+      call='dt_dadd(d, dur)', ret='struct dt_d_s', replace=[cal] + UNR('dt_dadd_b', *[c for c in ('dt_dadd_d', 'dt_dadd_w', 'dt_dadd_m', 'dt_dadd_y') if c != cal]), solvers=SV,
+      timeout=1800 if SLOW(nm, t) else 600, tier='thorough' if SLOW(nm, t) else 'quick',
+      needs={cal: r'\.%s$' % t[3:]}, sweep={'in_n': '(int)(RND % 4000) - 2000'})
 
 # dt_ddiff, day differences (DT_DURD)
 DTYPS = ('DT_YMD', 'DT_YD', 'DT_DAISY', 'DT_LDN', 'DT_MDN')
